@@ -273,6 +273,17 @@ Fixpoint pows_ok (base : Q) (es vs : list Q) : bool :=
   | _, _ => false
   end.
 
+(* Logspace values form a geometric progression: v1^2 = v0 * v2 for consecutive values (relative 2^-36; the
+   float64 exponents lo + i*step carry up to 2 ulp(64) = 1.4e-14, times ln base <= 2.4, four times over).
+   Together with the end points (pow_ok when lo, hi have denominator <= 8) this pins the values whose own
+   exponent has a denominator > 8, which pow_ok only tests for positivity. *)
+Definition prog_rel : Q := 1 # (2 ^ 36)%positive.
+Fixpoint geo_prog (vs : list Q) : bool :=
+  match vs with
+  | v0 :: ((v1 :: v2 :: _) as t) => within (prog_rel * (v1 * v1)) (v1 * v1) (v0 * v2) && geo_prog t
+  | _ => true
+  end.
+
 Definition vec_fun (fid : Z) (x : Q) : Q :=
   if (fid =? 0)%Z then - x else if (fid =? 1)%Z then x / 2 else if (fid =? 2)%Z then 2 * x
   else if (fid =? 3)%Z then x + 1 else x.
@@ -305,7 +316,7 @@ Definition tol_lin (lo hi : Q) : Q := 8 * ulp53 * (Qabs lo + Qabs hi).
 Definition check_vec (v : vcase) : bool * list Z :=
   match v with
   | VLin lo hi num res => (lists_close (tol_lin lo hi) (linspace lo hi num) res, [0%Z])
-  | VLog lo hi num base res => (pows_ok base (logspace_exponents lo hi num) res, [1%Z])
+  | VLog lo hi num base res => (pows_ok base (logspace_exponents lo hi num) res && geo_prog res, [1%Z])
   | VSum xs r => (xwithin (tol_sum xs) (XFin (vsum xs)) r, [2%Z])
   | VMap fid xs r1 r2 u =>
       (list_Qeq (vmap (vec_fun fid) xs) r1 && list_Qeq (vectorize (vec_fun fid) xs) r2 && (u =? 1)%Z, [3%Z])
